@@ -170,7 +170,7 @@ fn owns(prop: &str, clause: &str) -> bool {
         "C01" => &["effects", "runnable-left", "events-unapplied"],
         "C02" => &["resolve-result", "delivery"],
         "C03" => &["event-once", "event-order", "events-unapplied", "view", "reentrancy"],
-        "C04" => &["conformance", "effects", "view"],
+        "C04" => &["conformance", "effects", "view", "done-flag", "runnable-left", "events-unapplied"],
         "C05" => &["conformance", "effects", "runnable-left", "events-unapplied", "view"],
         "C06" => &["cancelled-polled", "discarded-alive", "effects", "conformance"],
         "C07" => &["done-flag", "dead-kept", "discarded-alive"],
@@ -257,15 +257,21 @@ fn main() {
     let tolerate_retaining = vkit::is_known(&known, "evict-retained-waker") || vkit::is_known(&vkit::known_findings("C07"), "evict-retained-waker");
     let stats = Stats::new();
     let tolerate: Vec<String> = known.iter().map(|k| k.sig.clone()).collect();
+    let driver_errors = std::sync::atomic::AtomicU64::new(0);
     let check = |c: &Case| -> Result<(), String> {
         let info = match run_case(&c.universe, &CaseCfg { host: c.host, tolerate_retaining, byte_late_resolves: sp.prop == "C02", release_checks: sp.prop == "C13", tolerate: tolerate.clone() }) {
             Ok(info) => info,
-            Err(why) => {
-                let clause = clause_of(&why);
-                if owns(sp.prop, clause) {
-                    return Err(format!("[{clause}] {why}"));
+            Err(fails) => {
+                // every clause that failed in the first failing call; report the first one this property owns
+                if let Some(why) = fails.iter().find(|w| owns(sp.prop, clause_of(w))) {
+                    return Err(format!("[{}] {why}", clause_of(why)));
                 }
-                // not this property's clause: the case ends unjudged
+                // none of them is this property's clause: the case ends unjudged
+                let clause = clause_of(&fails[0]);
+                if clause == "driver" {
+                    driver_errors.fetch_add(1, std::sync::atomic::Ordering::Relaxed);
+                    eprintln!("harness error: {}", fails[0]);
+                }
                 stats.label(&format!("foreign:{clause}"));
                 return Ok(());
             }
@@ -296,7 +302,7 @@ fn main() {
             for k in &known {
                 if let Some((host, universe, needle)) = reproducer(&k.sig) {
                     let strict = CaseCfg { host, tolerate_retaining: false, byte_late_resolves: false, release_checks: sp.prop == "C13", tolerate: vec![] };
-                    if matches!(run_case(&universe, &strict), Err(e) if e.contains(needle)) {
+                    if matches!(run_case(&universe, &strict), Err(e) if e.iter().any(|w| w.contains(needle))) {
                         vkit::print_known_finding(k);
                     }
                 }
@@ -330,6 +336,7 @@ fn main() {
             };
             let outcome = vkit::run_prop(sp.prop, vkit::workers_for(tier), tier.pick(sp.quick, sp.thorough), strategy, check);
             let outcome = match outcome {
+                Outcome::Held if driver_errors.load(std::sync::atomic::Ordering::Relaxed) > 0 => Outcome::Inconclusive("the shell driver lost track of a request (harness error, see stderr)".into()),
                 Outcome::Held if stats.distinct_nontrivial() < 2 => Outcome::Inconclusive("generator produced no non-trivial case".into()),
                 o => o,
             };
